@@ -755,6 +755,12 @@ def check(run: Run) -> None:
                                         "stop hook failed is reported as a successful run", loc=fa_.loc(st))
         run.sites(n_rec, 5, "FirstExceptionRecorder locals")
 
+    with run.obligation("C14.m", "K2", "a child graph that failed in one cycle is scanned from its first node in the next: the failed flag of the previous cycle is read (resuming) before "
+                        "the per-cycle resets clear it - resumed at the failing node, the lower-ranked siblings are never evaluated again although they stay started until "
+                        "the end of the run, and the evaluation brackets seen by lifecycle observers no longer pair (shared with C01.d2)"):
+        from . import c01
+        R.share(run, "C14.m", c01, ["C01.d2"])
+
 
 ANYARGS = ("anyargs",)
 
